@@ -80,6 +80,11 @@ def extra_shapes(extra_attrs=()):
                       [Assoc(1, 'C', ['A_Id'], False, True, '', 'A', ['Id'], False, True, ''),
                        Assoc(2, 'C', ['B_Id'], False, True, '', 'B', ['Id'], False, True, '')],
                       [(k, 'I1', ['Id']) for k in ('A', 'B', 'C')]))
+    # (j) an association formalised over a compound identifier (two key pairs holding different values)
+    out.append(Schema('j_compound_key',
+                      [('A', [ID, ('Alt', 'unique_id')] + x), ('B', [ID, ('A_Id', 'unique_id'), ('A_Alt', 'unique_id')] + x)],
+                      [Assoc(1, 'B', ['A_Id', 'A_Alt'], True, True, '', 'A', ['Id', 'Alt'], False, True, '')],
+                      [('A', 'I1', ['Id', 'Alt']), ('B', 'I1', ['Id'])]))
     return out
 
 
